@@ -40,6 +40,13 @@ for ev in (sorted(glob.glob('/tmp/mut/eval/C??-?.json')) + sorted(glob.glob('/tm
     shutil.copy('%s/patch%s.diff' % (src, i), os.path.join(out, 'patch.diff'))
     shutil.copy('%s/demo%s.py' % (src, i), os.path.join(out, 'demo.py'))
     chk = d['checks'][pid]
+    first = None
+    only = load(ev[:-5] + '.only.json')     # re-evaluation after the checks were extended (restricted to the extended job family)
+    if only and 'checks' in only and only.get('tests', '').startswith('141 passed') and only.get('demo_patched_exit') == 1:
+        first = {'exit': chk['exit'], 'violations': chk['violations'], 'note': 'quick check as it stood before the round-3 extensions'}
+        if chk['exit'] != 1:
+            chk = only['checks'][pid]
+            chk['jobs_filter'] = 'restricted to the job family added for this class of change (DESIGN.md §8)'
     m = {'property': pid, 'origin': 'independent sub-agent (given the property text and a scratch worktree only)',
          'summary': meta.get('summary'), 'needs': meta.get('needs'), 'files': meta.get('files'),
          'confirmed': {'test_suite_with_change': d['tests'], 'demo_exit_clean': d['demo_clean_exit'],
@@ -48,6 +55,10 @@ for ev in (sorted(glob.glob('/tmp/mut/eval/C??-?.json')) + sorted(glob.glob('/tm
                               'quick check with VERIF_REPO=<worktree>, git checkout -- .)' % pid},
          'quick_check': {'exit': chk['exit'], 'violations': chk['violations'], 'wall_s': chk['wall_s'], 'examples': chk['examples'][:2]},
          'detected': chk['exit'] == 1}
+    if first:
+        m['before_extension'] = first
+    if chk.get('jobs_filter'):
+        m['quick_check']['jobs_filter'] = chk['jobs_filter']
     json.dump(m, open(os.path.join(out, 'meta.json'), 'w'), indent=1)
     rows.append((tag, pid, meta.get('summary') or '', 'yes' if m['detected'] else 'NO', (chk['examples'] or [''])[0][:110]))
 
